@@ -127,8 +127,10 @@ func c14Cfg(p c14Params) *WorldCfg {
 			if strings.Contains(sqls[i], " JOIN ") && !strings.Contains(sqls[i], " OR ") {
 				// every plan the optimizer could pick among equal-cost candidates (hook H3)
 				if pfs, _, f := w.db.PlanVariants(sqls[i]); f == nil {
-					for _, pf := range pfs[1:] {
-						ops = append(ops, fmt.Sprintf("raw:0:%d#%s", i, strings.Trim(strings.ReplaceAll(fmt.Sprint(pf), " ", ","), "[]")))
+					for _, pf := range pfs {
+						if s := pf.String(); s != "" {
+							ops = append(ops, fmt.Sprintf("raw:0:%d#%s", i, s))
+						}
 					}
 				}
 			}
@@ -144,13 +146,9 @@ func c14Cfg(p c14Params) *WorldCfg {
 		}
 		var txn, si int
 		fmt.Sscanf(op, "raw:%d:%d", &txn, &si)
-		var choices []int
+		var choices PlanChoices
 		if i := strings.IndexByte(op, '#'); i > 0 {
-			for _, s := range strings.Split(op[i+1:], ",") {
-				var n int
-				fmt.Sscan(s, &n)
-				choices = append(choices, n)
-			}
+			choices = ParsePlanChoices(op[i+1:])
 		}
 		SetPlanChoices(choices)
 		defer SetPlanChoices(nil)
